@@ -52,8 +52,23 @@ func (m *monitor) violation(kind string, i int, msg string) {
 	m.st.Violation(m.c.id, fmt.Sprintf("%s op=%d %s", kind, i, msg))
 }
 
-func (m *monitor) afterPanic(i int, o op) {
+// a chunk that has to be ignored (foreign, or not the next expected chunk of its
+// sender) must not crash the receiver either
+func (m *monitor) afterPanic(i int, o op, trBefore map[string]hk.TrackedInfo) {
 	m.st.Count("case-ended-by-panic")
+	if o.kind != opAdd {
+		m.violation("PANIC", i, "the receiver panicked without a chunk")
+		return
+	}
+	chunk := o.chunk
+	key := fmt.Sprintf("%d.%d.%d", chunk.ShardID, chunk.ReplicaID, chunk.Index)
+	good := chunk.DeploymentId == m.c.did && chunk.BinVer == raftio.TransportBinVersion
+	tb, tracked := trBefore[key]
+	expected := good && chunk.ChunkId != 0 && tracked && tb.Next == chunk.ChunkId && tb.From == chunk.From
+	if !good || (chunk.ChunkId != 0 && !expected) {
+		m.violation("NO-EFFECT", i, fmt.Sprintf("chunk id=%d from=%d that is not the next expected chunk of its sender (tracked=%v next=%d from=%d) crashed the receiver",
+			chunk.ChunkId, chunk.From, tracked, tb.Next, tb.From))
+	}
 }
 
 func dirMap(ds []dirObs) map[string]string {
